@@ -131,7 +131,12 @@ def classify_loops(f):
                         adv.remove(v)
                 if atoms and not any(root_var(a["obj"]) in assigned for a in atoms if a["obj"]):
                     k = "spin-wait"
-                    detail = "waits for %s to change" % ", ".join(sorted({a["obj"] or "?" for a in atoms}))
+                    from .engine import atomic_fields_may
+                    names = set()
+                    for a in atoms:
+                        fl = atomic_fields_may(f, a)
+                        names |= {x[1] for x in fl} if fl else {a["obj"] or "?"}
+                    detail = "waits for %s to change" % ", ".join(sorted(names))
                 elif adv:
                     k = "traversal"
                     detail = "advances " + ", ".join(sorted(adv))
